@@ -13,6 +13,10 @@ import traceback
 
 from vlib import ROOT
 
+# Runs against a scratch tree (VERIF_REPO, seeded changes) write their evidence and replays elsewhere, so that
+# /verif/evidence only ever holds what was observed on /repo itself.
+OUT_ROOT = os.environ.get("VERIF_OUT_DIR") or ROOT
+
 PY = "/venv/bin/python"
 NCPU = min(16, os.cpu_count() or 4)
 
@@ -239,7 +243,7 @@ def run_check(prop, tier, seed, replay=None):
         f["mechanism"]: f for f in known.get("findings", [])
         if f.get("property") == prop and f.get("status", "open") == "open"
     }
-    rep_dir = os.path.join(ROOT, "replays", prop)
+    rep_dir = os.path.join(OUT_ROOT, "replays", prop)
     new, matched = [], collections.OrderedDict()
     for v in ctx.violations:
         os.makedirs(rep_dir, exist_ok=True)
@@ -295,8 +299,8 @@ def run_check(prop, tier, seed, replay=None):
         "wall_s": round(time.time() - ctx.t0, 2),
         "violations": n_new,
     }
-    os.makedirs(os.path.join(ROOT, "evidence"), exist_ok=True)
-    with open(os.path.join(ROOT, "evidence", "%s.json" % prop), "w") as f:
+    os.makedirs(os.path.join(OUT_ROOT, "evidence"), exist_ok=True)
+    with open(os.path.join(OUT_ROOT, "evidence", "%s.json" % prop), "w") as f:
         json.dump(evidence, f, indent=1, sort_keys=True, default=repr)
         f.write("\n")
 
